@@ -37,7 +37,9 @@ class C02(Prop):
             for n in range(0, maxlen + 1):
                 if kind == "i":
                     base = [2 * k + 2 for k in range(n)]          # 2,4,6,...
-                    bounds = [None, 0] + sorted(set(base + [b + 1 for b in base])) + [2 * n + 4]
+                    # integers on and between the labels, and non-integral bounds (must not be truncated)
+                    bounds = [None, 0] + sorted(set(base + [b + 1 for b in base] + [b + Fraction(1, 2) for b in base]
+                                                    + [b - Fraction(1, 2) for b in base[:1]])) + [2 * n + 4]
                 else:
                     base = [Fraction(2 * k + 3, 2) for k in range(n)]   # 1.5, 2.5, ...
                     bounds = [None, Fraction(1, 4)] + sorted(set(base + [b + Fraction(1, 2) for b in base])) + [Fraction(2 * n + 9, 2)]
@@ -60,7 +62,7 @@ class C02(Prop):
             ax = {"name": "x", "kind": kind, "labels": labels, "_order": order}
             bounds = [None] + labels
             if rng.random() < 0.3:
-                bounds.append(gen.absent_label(rng, ax))
+                bounds.append(gen.absent_label(rng, ax, frac=True))
             for s, e, st in itertools.product(bounds, bounds, steps):
                 yield {"op": "loc", "axis": ax, "ix": ["sl", s, e, st], "_src": "strict"}
 
@@ -97,8 +99,10 @@ class C02(Prop):
             if numeric_mono and r < 0.6:
                 b = rng.choice(labels)
                 v = Fraction(b[1], b[2]) + Fraction(rng.choice([-3, -1, 1, 2, 5]), 8 if ax["kind"] == "f" else 1)
-                if ax["kind"] == "i":
+                if ax["kind"] == "i" and rng.random() < 0.7:
                     v = Fraction(int(v))
+                elif ax["kind"] == "i":
+                    v = Fraction(int(v)) + Fraction(1, 2)
                 return enc(v)
             return rng.choice(labels)
         return ["sl", bound(), bound(), rng.choice([None, None, 1, 2, 3, -1, -2])]
